@@ -14,6 +14,126 @@ fn congruent_ports(n: u16, shard: u16, lo: u16, hi: u16) -> Vec<u16> {
     (lo as u32..=hi as u32).filter(|p| p % n as u32 == shard as u32).map(|p| p as u16).collect()
 }
 
+fn consistency(name: &str) -> scylla::statement::Consistency {
+    use scylla::statement::Consistency::*;
+    match name {
+        "Any" => Any, "One" => One, "Two" => Two, "Three" => Three, "Quorum" => Quorum, "All" => All,
+        "LocalQuorum" => LocalQuorum, "EachQuorum" => EachQuorum, "LocalOne" => LocalOne, "Serial" => Serial,
+        _ => LocalSerial,
+    }
+}
+
+fn write_type(name: &str) -> scylla::errors::WriteType {
+    use scylla::errors::WriteType::*;
+    match name {
+        "Simple" => Simple, "Batch" => Batch, "UnloggedBatch" => UnloggedBatch, "Counter" => Counter,
+        "BatchLog" => BatchLog, "Cas" => Cas, "View" => View, "Cdc" => Cdc, _ => Other("x".into()),
+    }
+}
+
+struct Fields { received: i32, required: i32, alive: i32, numfailures: i32, data_present: bool, wt: String, cons: String }
+
+fn db_error(name: &str, f: &Fields) -> Option<scylla::errors::DbError> {
+    use scylla::errors::DbError::*;
+    let c = consistency(&f.cons);
+    Some(match name {
+        "SyntaxError" => SyntaxError, "Invalid" => Invalid,
+        "AlreadyExists" => AlreadyExists { keyspace: "k".into(), table: "t".into() },
+        "FunctionFailure" => FunctionFailure { keyspace: "k".into(), function: "f".into(), arg_types: vec![] },
+        "AuthenticationError" => AuthenticationError, "Unauthorized" => Unauthorized, "ConfigError" => ConfigError,
+        "Unavailable" => Unavailable { consistency: c, required: f.required, alive: f.alive },
+        "Overloaded" => Overloaded, "IsBootstrapping" => IsBootstrapping, "TruncateError" => TruncateError,
+        "ReadTimeout" => ReadTimeout { consistency: c, received: f.received, required: f.required, data_present: f.data_present },
+        "WriteTimeout" => WriteTimeout { consistency: c, received: f.received, required: f.required, write_type: write_type(&f.wt) },
+        "ReadFailure" => ReadFailure { consistency: c, received: f.received, required: f.required, numfailures: f.numfailures, data_present: f.data_present },
+        "WriteFailure" => WriteFailure { consistency: c, received: f.received, required: f.required, numfailures: f.numfailures, write_type: write_type(&f.wt) },
+        "Unprepared" => Unprepared { statement_id: bytes::Bytes::new() },
+        "ServerError" => ServerError, "ProtocolError" => ProtocolError,
+        "Other" => Other(f.numfailures),
+        _ => return None,
+    })
+}
+
+fn attempt_error(name: &str, db: &str, f: &Fields) -> Option<scylla::errors::RequestAttemptError> {
+    use scylla::errors::RequestAttemptError::*;
+    Some(match name {
+        "UnableToAllocStreamId" => UnableToAllocStreamId,
+        "BrokenConnectionError" => BrokenConnectionError(scylla::errors::BrokenConnectionErrorKind::ChannelError.into()),
+        "NonfinishedPagingState" => NonfinishedPagingState,
+        "RepreparedIdMissingInBatch" => RepreparedIdMissingInBatch,
+        "UnexpectedResponse" => UnexpectedResponse(scylla_cql::frame::response::CqlResponseKind::Ready),
+        "RepreparedIdChanged" => RepreparedIdChanged { statement: "s".into(), expected_id: vec![1], reprepared_id: vec![2] },
+        "DbError" => DbError(db_error(db, f)?, "msg".into()),
+        _ => return None,
+    })
+}
+
+/// Drives the REAL policy: primes the one-shot flags with a short history, then applies the model's error three
+/// times, checking the rules of C06 on every decision and the same-target bound over the whole history.
+fn retry_replay(a: &[&str]) -> String {
+    use scylla::policies::retry::*;
+    let pol = a[1];
+    let f = Fields {
+        received: a[9].parse().unwrap(), required: a[10].parse().unwrap(), alive: a[11].parse().unwrap(),
+        numfailures: a[12].parse().unwrap(), data_present: a[13] == "1", wt: a[14].to_string(), cons: a[15].to_string(),
+    };
+    let idem = a[4] == "1";
+    let cl = consistency(a[5]);
+    let flags = [a[6] == "1", a[7] == "1", a[8] == "1"];
+    let err = match attempt_error(a[2], a[3], &f) {
+        Some(e) => e,
+        None => return "UNSUPPORTED error variant cannot be constructed natively".into(),
+    };
+    let mut session: Box<dyn RetrySession> = match pol {
+        "default" => DefaultRetryPolicy::new().new_session(),
+        "downgrading" => DowngradingConsistencyRetryPolicy::new().new_session(),
+        _ => FallthroughRetryPolicy::new().new_session(),
+    };
+    let bound = match pol { "default" => 2, "downgrading" => 1, _ => 0 };
+    let q = scylla::statement::Consistency::Quorum;
+    let pf = Fields { received: 1, required: 1, alive: 1, numfailures: 0, data_present: false, wt: "BatchLog".into(), cons: "Quorum".into() };
+    let mut history: Vec<(scylla::errors::RequestAttemptError, bool, scylla::statement::Consistency)> = vec![];
+    if pol == "default" {
+        if flags[0] { history.push((attempt_error("DbError", "Unavailable", &pf).unwrap(), true, q)); }
+        if flags[1] { history.push((attempt_error("DbError", "ReadTimeout", &pf).unwrap(), true, q)); }
+        if flags[2] { history.push((attempt_error("DbError", "WriteTimeout", &pf).unwrap(), true, q)); }
+    } else if pol == "downgrading" && flags[0] {
+        history.push((attempt_error("DbError", "ReadTimeout", &pf).unwrap(), true, q));
+    }
+    for _ in 0..3 {
+        history.push((attempt_error(a[2], a[3], &f).unwrap(), idem, cl));
+    }
+    drop(err);
+    let mut same = 0;
+    let mut log = String::new();
+    for (e, idem, cl) in history.iter() {
+        let d = session.decide_should_retry(RequestInfo::verif_new(e, *idem, *cl));
+        log.push_str(&format!("{:?};", d));
+        let resend = matches!(d, RetryDecision::RetrySameTarget(_) | RetryDecision::RetryNextTarget(_));
+        if matches!(d, RetryDecision::RetrySameTarget(_)) { same += 1; }
+        let class_ok = matches!(e, scylla::errors::RequestAttemptError::UnableToAllocStreamId)
+            || matches!(e, scylla::errors::RequestAttemptError::DbError(scylla::errors::DbError::Unavailable { .. }, _))
+            || matches!(e, scylla::errors::RequestAttemptError::DbError(scylla::errors::DbError::IsBootstrapping, _))
+            || matches!(e, scylla::errors::RequestAttemptError::DbError(scylla::errors::DbError::ReadTimeout { .. }, _));
+        if !*idem && resend && !class_ok {
+            return format!("VIOLATES non-idempotent request re-sent after a failure that may have applied it: {}", log);
+        }
+        if pol == "default" && cl.is_serial() && d != RetryDecision::DontRetry {
+            return format!("VIOLATES default policy retried at serial consistency: {}", log);
+        }
+        if pol == "fallthrough" && d != RetryDecision::DontRetry {
+            return format!("VIOLATES fallthrough retried: {}", log);
+        }
+        if !*idem && d == RetryDecision::IgnoreWriteError {
+            return format!("VIOLATES write error of a non-idempotent request ignored: {}", log);
+        }
+    }
+    if same > bound {
+        return format!("VIOLATES {} same-target retries in one history (bound {}): {}", same, bound, log);
+    }
+    format!("OK {}", log)
+}
+
 fn main() {
     std::panic::set_hook(Box::new(|_| {}));
     let stdin = std::io::stdin();
@@ -126,6 +246,9 @@ fn main() {
                 })
                 .unwrap_or("PANIC".into())
             }
+            // retry <policy> <err variant> <db variant> <idem 0/1> <req consistency> <f0> <f1> <f2>
+            //       <received> <required> <alive> <numfailures> <data_present 0/1> <write type> <err consistency>
+            "retry" => retry_replay(&a),
             "token_new" => Token::new(num(1) as i64).value().to_string(),
             _ => "UNKNOWN".to_string(),
         };
